@@ -52,6 +52,12 @@ def one_case(rep, spec, index):
     fc.precision = gen.loguniform(rng, 1e-12, 1e-10)
     basis = rng.choice(["weight", "molar"])
     comps = [gen.gen_composition(rng, fc.mix, basis=basis, edge=0.02) for _ in range(rng.randint(1, 3))]
+    if rng.random() < 0.15:
+        # few keys: a grid temperature and long-lived pooled compositions, shared by different mixtures of equal name
+        fc.t_feed = rng.choice(gen.TEMPERATURE_GRID)
+        comps = [gen.pooled_composition(rng) for _ in comps]
+        if fc.tp is not None:
+            fc.tp = min(fc.tp, fc.t_feed - 1.0)
     units = rng.choice(gen.UNITS)
     case = dict(fc.describe(), index=index, compositions=[c.p for c in comps], basis=basis, units=units)
     p1, p2 = fc.p1.value, fc.p2.value
